@@ -145,15 +145,18 @@ class Fam:
                 if not bad:
                     self.b = v
             return "setp %s %s" % (hs(prefix + c), hx(v))
+        # rate / truncation point 0: accepted by the documented constraint [0, inf[ (outside the regular range of the
+        # property: only the tie and the parent-independent clauses are exercised), 2% of the updates
+        zero = r.random() < 0.02
         if k == "exp":
-            v = r.choice([-0.5, -1e-9]) if bad else nice(r, logu(r, 0.01, 10))
-            if not bad:
+            v = r.choice([-0.5, -1e-9]) if bad else (0.0 if zero else nice(r, logu(r, 0.01, 10)))
+            if not bad and not zero:
                 self.a = v
             return "setp %s %s" % (hs(prefix + "lambda"), hx(v))
         if k == "texp":
             c = r.choice(["lambda", "tp"])
-            v = r.choice([-0.5, -1e-9]) if bad else nice(r, logu(r, 0.01, 10) if c == "lambda" else logu(r, 0.1, 100))
-            if not bad:
+            v = r.choice([-0.5, -1e-9]) if bad else (0.0 if zero else nice(r, logu(r, 0.01, 10) if c == "lambda" else logu(r, 0.1, 100)))
+            if not bad and not zero:
                 setattr(self, "a" if c == "lambda" else "b", v)
             return "setp %s %s" % (hs(prefix + c), hx(v))
         return "setp %s %s" % (hs(prefix + "min"), hx(0.5))
@@ -222,8 +225,7 @@ def family_case(rng, idx, nops):
         elif q < 0.92:
             ops.append("discretize")
         elif q < 0.96:
-            # a clone keeps the *original's* interval object as the constraint of a tied parameter (tp): not modelled
-            ops.append("copy" if f.kind != "texp" else "discretize")
+            ops.append(rng.choice(["copy", "copy", "fork", "forkassign", "swap", "selfassign"]))
         else:
             g = Fam(rng)
             if rng.random() < 0.5:
@@ -272,7 +274,9 @@ class SimpleD:
             vals[1] = vals[0] + 1e-13          # equivalent to the first one: refused
         elif r < 0.12:
             probs[0] += 0.125                  # does not sum to one: refused
-        return "new simple %s 0 %d %s" % (hx(1e-12), self.k, " ".join(hx(v) + " " + hx(p) for v, p in zip(vals, probs)))
+        # precision of the map: the default 1e-12, sometimes 0 (exact comparison) or coarse
+        prec = 1e-12 if self.rng.random() < 0.8 else self.rng.choice([0.0, 0.0, 1e-3])
+        return "new simple %s 0 %d %s" % (hx(prec), self.k, " ".join(hx(v) + " " + hx(p) for v, p in zip(vals, probs)))
 
     def support(self):
         return (min(self.vals) - 0.5, max(self.vals) + 0.5)
@@ -348,11 +352,7 @@ PREFIX.update({"simple": "Simple.", "const": "Constant."})
 def leaf(rng, allow=("fam", "simple", "const")):
     k = rng.choice(allow)
     if k == "fam":
-        while True:
-            f = Fam(rng)
-            # tied constraints of a nested truncated exponential are not mirrored by the compound's copy: left to the leaf cases
-            if f.kind != "texp":
-                return f
+        return Fam(rng)
     return SimpleD(rng) if k == "simple" else ConstD(rng)
 
 
@@ -370,8 +370,10 @@ def leaf_case(rng, idx, nops):
             ops.append("median %d" % rng.choice([0, 1]))
         elif q < 0.85:
             ops.append(d.restrict())
+        elif q < 0.93:
+            ops.append("discretize")
         else:
-            ops.append("discretize")     # (no `copy`: see family_case)
+            ops.append(rng.choice(["copy", "fork", "forkassign", "swap"]))
         ops += queries(rng, d, d.n, rng.randint(0, 3))
     return ops
 
@@ -408,22 +410,8 @@ def compound_case(rng, idx, nops):
         d = ds[0]
     nh = 8
     ops += queries(rng, d, nh, rng.randint(1, 4))
-    restricted = False
     for _ in range(nops):
         q = rng.random()
-        if 0.2 <= q < 0.45 and restricted:
-            # after a restriction the value parameters of nested constant / user-specified distributions are tied to
-            # their domain while the compound's copy of the parameter is not: not modelled
-            cands = [(pre, c) for pre, c in comps if c.kind not in ("const", "simple")]
-            if cands:
-                pre, c = rng.choice(cands)
-                ops.append(c.setp(pre + PREFIX[c.kind]))
-            else:
-                ops.append("discretize")
-            ops += queries(rng, d, nh, rng.randint(0, 3))
-            continue
-        if 0.7 <= q < 0.85:
-            restricted = True
         if q < 0.2:
             nm = rng.choice(own + (["theta9", "q"] if rng.random() < 0.1 else []))
             v = rng.choice([-0.2, 1.2]) if rng.random() < 0.12 else rng.choice([0.0, 1.0, 0.5, 0.125, rng.random()])
@@ -437,9 +425,112 @@ def compound_case(rng, idx, nops):
             ops.append("median %d" % rng.choice([0, 1]))
         elif q < 0.85:
             ops.append(rng.choice(comps)[1].restrict())
+        elif q < 0.93:
+            ops.append("discretize")
+        else:
+            ops.append(rng.choice(["copy", "fork", "forkassign", "swap"]))
+        ops += queries(rng, d, nh, rng.randint(0, 3))
+    return ops
+
+
+class TexpD(Fam):
+    """a truncated exponential (the family whose `tp` gets tied to the domain)"""
+
+    def __init__(self, rng):
+        Fam.__init__(self, rng)
+        self.kind = "texp"
+        self.n = pick_n(rng)
+        self.a = nice(rng, logu(rng, 0.01, 10)); self.b = nice(rng, logu(rng, 0.1, 100))
+
+
+def tie_leaf(rng):
+    """a leaf of one of the three classes that tie a parameter to their domain (mostly), or any family"""
+    k = rng.random()
+    if k < 0.4:
+        return TexpD(rng)
+    if k < 0.6:
+        return ConstD(rng)
+    if k < 0.8:
+        return SimpleD(rng)
+    return Fam(rng)
+
+
+def accepting_restrict(rng, d):
+    """a restriction that the object accepts most of the time: an interval around its tied values"""
+    if d.kind == "texp":
+        lo = 0.0 if rng.random() < 0.7 else -1.0
+        hi = d.b * rng.choice([1.0, 1.5, 2.0, 10.0])
+        return "restrict %s %s %d %d" % (hx(lo), hx(hi), rng.choice([0, 1]), 1)
+    if d.kind == "const":
+        return "restrict %s %s 1 1" % (hx(d.v - rng.choice([0.5, 1, 3])), hx(d.v + rng.choice([0.5, 1, 3])))
+    if d.kind == "simple":
+        return "restrict %s %s 1 1" % (hx(min(d.vals) - rng.choice([0.25, 1, 4])), hx(max(d.vals) + rng.choice([0.25, 1, 4])))
+    return d.restrict()
+
+
+def tied_update(rng, d, prefix=""):
+    """an update of the parameter that a restriction ties to the domain (values inside and outside the
+    restricted domain), or any other update"""
+    r = rng.random()
+    if d.kind == "texp" and r < 0.7:
+        v = nice(rng, d.b * rng.choice([0.25, 0.5, 0.9, 1.0, 1.2, 3.0]))
+        if rng.random() < 0.7:
+            d.b = v
+        return "setp %s %s" % (hs(prefix + "tp"), hx(v))
+    if d.kind == "const" and r < 0.8:
+        v = nice(rng, d.v + rng.choice([-2, -0.75, -0.25, 0.25, 0.75, 2]))
+        return "setp %s %s" % (hs(prefix + "value"), hx(v))
+    if d.kind == "simple" and r < 0.6:
+        i = rng.randint(1, d.k)
+        v = nice(rng, rng.uniform(min(d.vals) - 1.5, max(d.vals) + 1.5))
+        return "setp %s %s" % (hs(prefix + "V%d" % i), hx(v))
+    return d.setp(prefix)
+
+
+def shared_case(rng, idx, nops):
+    """copies and what they share with their source: a leaf (mostly of a class that ties a parameter
+    to its domain), often restricted first, is copied (`fork` = clone(), `forkassign` = operator=,
+    `copy` = the clone replaces the original); then updates of the source and of the copy (`swap`
+    exchanges the roles) — of the tied parameter, restrictions, class counts; further copies of copies.
+    With probability 1/2 the leaf is wrapped into an invariant-mixed distribution or a mixture
+    (before or after its first restriction) and the history runs on the compound."""
+    d = tie_leaf(rng)
+    ops = ["case shared%d %s" % (idx, d.kind), d.new()]
+    pre = ""
+    if rng.random() < 0.6:
+        ops.append(accepting_restrict(rng, d))
+    wrap = rng.random()
+    if wrap < 0.25:
+        lo, hi = d.support()
+        ops.append("new invar %s %s" % (hx(rng.choice([0.0, 0.25, 0.5])), hx(rng.choice([0.0, lo - 1, hi + 1]))))
+        pre = PREFIX[d.kind]
+        ops[0] += "+invar"
+    elif wrap < 0.5:
+        e = leaf(rng, ("fam", "const", "simple"))
+        ops.append("push")
+        ops += [e.new(), "push"]
+        ops.append("new mix 2 %s %s" % (hx(0.25), hx(0.75)))
+        pre = "1_" + PREFIX[d.kind]
+        ops[0] += "+mix"
+    ops.append(rng.choice(["fork", "fork", "forkassign"]))
+    for _ in range(nops):
+        q = rng.random()
+        if q < 0.45:
+            ops.append(tied_update(rng, d, pre))
+        elif q < 0.6:
+            ops.append(accepting_restrict(rng, d) if rng.random() < 0.7 else d.restrict())
+        elif q < 0.75:
+            ops.append("swap")
+        elif q < 0.82:
+            ops.append(rng.choice(["fork", "forkassign", "copy", "selfassign"]))
+        elif q < 0.9:
+            ops.append("setn %d" % pick_n(rng))
+        elif q < 0.95:
+            ops.append("median %d" % rng.choice([0, 1]))
         else:
             ops.append("discretize")
-        ops += queries(rng, d, nh, rng.randint(0, 3))
+        if rng.random() < 0.3:
+            ops += queries(rng, d, d.n, 1)
     return ops
 
 
@@ -453,6 +544,8 @@ def generate(seed, tier):
         cases.append(leaf_case(rng, i, rng.randint(2, 10)))
     for i in range(16000 if big else 2500):
         cases.append(compound_case(rng, i, rng.randint(2, 10)))
+    for i in range(12000 if big else 2000):
+        cases.append(shared_case(rng, i, rng.randint(3, 12)))
     return cases
 
 
@@ -463,7 +556,7 @@ def coverage_extra(cases, answers):
         t = c[0].split()
         fam[t[2] if len(t) > 2 else "?"] = fam.get(t[2] if len(t) > 2 else "?", 0) + 1
         ops = [l for l in c if not l.startswith("case")]
-        k = sum(1 for l in ops if l.split()[0] in ("setp", "setn", "median", "restrict", "discretize", "copy"))
+        k = sum(1 for l in ops if l.split()[0] in ("setp", "setn", "median", "restrict", "discretize", "copy", "fork", "forkassign", "swap", "selfassign"))
         b = "%d-%d" % (k // 4 * 4, k // 4 * 4 + 3)
         hist_len[b] = hist_len.get(b, 0) + 1
         for l, r in zip(ops, a or []):
